@@ -84,12 +84,13 @@ add("C20", "exploration",
     "Seeded search over interleavings of 2-4 complete concurrent IsoQuant invocations under one HOME: every exists/open/"
     "truncate/flush/getmtime/makedirs/rename on the shared cache directory and every sqlite connect/commit/unlink on *.db is a "
     "pre-emption point decided by the scheduler (PCT, starvation windows, yield-after-mutation, random, round robin); families: same GTF, different "
-    "GTFs, same basename in different folders, gz / --complete_genedb mixes, adopt-while-owner-rebuilds after a pre-history. "
+    "GTFs, same basename in different folders, gz / --complete_genedb mixes, a shared --genedb_output folder, adopt-while-owner-"
+    "rebuilds after a pre-history; plus a function-level system in which 2-8 actors run the lookup/build/store cycle of the index, "
+    "BED and alignment caches (read_mapper.find_stored_*/store_*) with stub artefacts whose content tags reveal a foreign artefact. "
     "Judged per actor: exit 0, outputs equal the same invocation alone, database used = conversion of its own annotation, cache "
     "files well-formed.",
     "Trusted: logical mtimes (change iff modified), atomicity of sqlite commits and of pysam/pyfaidx writes; reference .fai "
-    "pre-built; the index/BED/alignment caches of the aligner path cannot run here (no aligner) and are covered only through "
-    "set_configs_directory.",
+    "pre-built; the aligners themselves cannot run here (no minimap2/STAR): their caches are exercised with stub artefacts.",
     "deterministic simulation of concurrent actors with a seeded scheduler over shared-cache events, vs run-alone golden outputs",
     qt=900, tt=2400)
 
